@@ -39,6 +39,7 @@ bool build_check(const std::string& prop, const std::string& tier, CheckSpec& sp
 int run_check(const std::string& prop, const std::string& tier, uint64_t seed, int workers);
 int run_replay(const std::string& path, bool verbose);
 int run_selftest(uint64_t seed, int seeds_per_scenario);
+int run_twice(const std::string& scenario, uint64_t seed, const std::string& rep, int view);
 int run_one(const std::string& scenario, uint64_t seed, const std::string& rep, int view, bool verbose);
 extern std::map<std::string, int64_t> g_cli_knobs;
 std::string verif_root();
